@@ -8,7 +8,7 @@ for f in sorted(glob.glob(os.path.join(V, 'seeded', '*', 'meta.json')) + glob.gl
     rows.append((os.path.relpath(os.path.dirname(f), os.path.join(V, 'seeded')), m))
 out = ['# Seeded changes and which checks catch them', '',
        'Every directory holds `patch.diff` (apply with `git -C /repo apply`), for the independently written ones also the author\'s',
-       '`demo.cpp` + `README.md`, and `meta.json`.  `C??-A..H` (rounds 1-4: A/B, C/D, E/F, G/H) were written by fresh sub-agents that saw only the property text and a scratch',
+       '`demo.cpp` + `README.md`, and `meta.json`.  `C??-A..J` (rounds 1-5: A/B, C/D, E/F, G/H, I/J) were written by fresh sub-agents that saw only the property text and a scratch',
        'worktree; `self/*` are the check author\'s own mutations (DESIGN §8).  "quick" = result of `./vcheck <ID> --tier quick` with the',
        'change applied (tools/seedcheck.py).  A change is expected to be caught by the check of the property it breaks; other columns are informative.',
        '`[rebased]`: later fix:/hook commits changed the lines the seed touches; `patch.diff` is the change re-made on the current tree, `patch.as-written.diff` the original.', '',
